@@ -151,6 +151,10 @@ func (w *World) addFile(cf *ContractFile) {
 	}
 	for _, f := range cf.Funcs {
 		key := f.Pkg + "." + f.Name
+		if f.View != "" {
+			w.funcSpecs["view:"+f.View+":"+key] = f
+			continue
+		}
 		switch f.Kind {
 		case "iface":
 			key = "iface:" + key
